@@ -1,2 +1,5 @@
 //! Generators
 pub mod names;
+pub mod msg;
+pub mod tree;
+pub mod scen;
